@@ -61,6 +61,9 @@ type Cfg struct {
 	ListOutage bool `json:"list_outage"`
 	// ReceiveOnly: the instance runs in receive-only mode (it merges, never uploads); the application still writes locally
 	ReceiveOnly bool `json:"receive_only"`
+	// SweeperFires (with Sweeper): a stale deletion marker exists locally and "the tomb sweeper's timer fires" is an
+	// environment answer (once): the sweep runs to completion before the loop continues
+	SweeperFires bool `json:"sweeper_fires"`
 	// OtherUpdates: the OtherUpdateSource extension hook is set; "an update of another kind for instance r arrives" is an
 	// environment answer (once). FirstLoadFails: the first download of r's snapshot fails (scripted, no cost).
 	OtherUpdates   bool `json:"other_updates"`
@@ -102,6 +105,7 @@ type World struct {
 	overdue           bool // the forced-snapshot interval elapses before the loop's next deadline check
 	forced            int
 	quietUsed         bool
+	sweeperFired      bool
 	outageSleeps      int
 	otherCh           chan snapshot.Update
 	otherSent         bool
@@ -665,6 +669,10 @@ func Run(cfg Cfg, ctx *explore.Ctx) Result {
 	}
 	verifhook.SetSkip(func(string) bool { return true })
 	verifhook.SetNow(func(site string, t time.Time) time.Time {
+		if site == "sweeper.cutoff" {
+			// the sweeper's cutoff on the logical clock: one day (its configured retention) before now
+			return time.Unix(0, int64(w.now())).Add(-24 * time.Hour)
+		}
 		if site == "sync.lastSnapshotTime" {
 			// the deadline of the periodic forced snapshot: real time unless the harness lets the interval elapse
 			w.mu.Lock()
@@ -710,6 +718,17 @@ func Run(cfg Cfg, ctx *explore.Ctx) Result {
 			}
 			return nil
 		})
+		if cfg.SweeperFires {
+			// a deletion marker far beyond the retention, for the sweeper to find
+			w.A.AppTxn(func(txn *lmdb.Txn) error {
+				if cfg.Native {
+					inst.NativePut(txn, "d", []byte("zold"), 5, true, nil)
+				} else {
+					inst.NativePut(txn, world.ShadowPrefix+"d", []byte("zold"), 5, true, nil)
+				}
+				return nil
+			})
+		}
 		if _, err := w.A.Send(); err != nil {
 			panic(err)
 		}
@@ -982,7 +1001,7 @@ func (w *World) cancelChoice(s *sched.Sched, at string) sched.Choice {
 func (w *World) policy(appPoints map[string]bool) sched.Policy {
 	cfg := w.Cfg
 	return func(s *sched.Sched, parked []*sched.P) []sched.Choice {
-		var loop, recvSleep, straddle, cleanerSleep *sched.P
+		var loop, recvSleep, straddle, cleanerSleep, sweeperSleep *sched.P
 		var background []*sched.P
 		for _, p := range parked {
 			switch {
@@ -995,7 +1014,8 @@ func (w *World) policy(appPoints map[string]bool) sched.Policy {
 			case p.Point == "sleep.cleaner":
 				cleanerSleep = p
 			case p.Point == "sleep.sweeper":
-				// the tomb sweeper's timer does not fire in this scenario (it only enables the load cutoff)
+				// the tomb sweeper's timer fires only as an explicit environment answer (SweeperFires)
+				sweeperSleep = p
 			case p.Point == "sleep.retry" && cfg.FirstLoadFails && p.Thread == "dl:r" && retryHeld(parked):
 				// the retry of the failed download takes its time: it fires when the loop has nothing else to do
 			case strings.HasPrefix(p.Point, "sleep."):
@@ -1112,6 +1132,16 @@ func (w *World) policy(appPoints map[string]bool) sched.Policy {
 					w.bucketVer++
 					w.idle = 0
 					w.mu.Unlock()
+				}}})
+			}
+			if cfg.SweeperFires && sweeperSleep != nil && !w.sweeperFired {
+				ss := sweeperSleep
+				out = append(out, sched.Choice{Label: "sweeper-timer-fires", Cost: 1, Act: &sched.Action{Do: func() {
+					w.mu.Lock()
+					w.sweeperFired = true
+					w.idle = 0
+					w.mu.Unlock()
+					s.Release(ss, 0)
 				}}})
 			}
 			if cfg.QuietPeriod && !cfg.ForceInterval && !w.quietUsed {
